@@ -99,14 +99,29 @@ struct Outcome {
 
 /// One spawn of the combination `kinds` with sharing variant `shared` on the current thread.
 fn one_spawn(ctx: &mut Ctx, kinds: [usize; 3], shared: bool, dir: &std::path::Path, tag: &str) -> Outcome {
+    one_spawn_x(ctx, kinds, shared, dir, tag, None)
+}
+
+/// `closed`: the parent has closed its own fd s beforehand, so that the file handed over for stream s happens to *be*
+/// descriptor s (a daemon that closed its stdin and passes a freshly opened file as the child's stdin).
+fn one_spawn_x(ctx: &mut Ctx, kinds: [usize; 3], shared: bool, dir: &std::path::Path, tag: &str, closed: Option<usize>) -> Outcome {
     let mut viol: Vec<(String, String, J)> = vec![];
-    let combo = format!("{}/{}/{}{}", KINDS[kinds[0]], KINDS[kinds[1]], KINDS[kinds[2]], if shared { "+shared" } else { "" });
+    let combo = format!("{}/{}/{}{}{}", KINDS[kinds[0]], KINDS[kinds[1]], KINDS[kinds[2]], if shared { "+shared" } else { "" }, match closed { Some(s) => format!("+parent-fd{}-closed", s), None => String::new() });
+    // nobody else in this process may open a descriptor while the hole exists
+    let _hole_guard = closed.map(|_| crate::inspect::PROC_LOCK.lock().unwrap_or_else(|e| e.into_inner()));
+    let mut saved_fd = -1;
+    if let Some(s) = closed {
+        unsafe {
+            saved_fd = libc::syscall(libc::SYS_fcntl, s as i32, libc::F_DUPFD_CLOEXEC, 100) as i32;
+            libc::syscall(libc::SYS_close, s as i32);
+        }
+    }
     let exe = spawn::report_exe(ctx, dir, tag, "ph");
     let _ = std::fs::remove_file(spawn::report_path(&exe));
     // ---- objects
     let mut objs: Vec<Obj> = vec![];
     let mut stream_obj: [Option<usize>; 3] = [None; 3];
-    let mut redirs: Vec<Redirection> = vec![];
+    let mut redirs: Vec<Option<Redirection>> = vec![None, None, None];
     let mut shared_file: Option<File> = None;
     let mut shared_rc: Option<(Rc<File>, usize)> = None;
     let mut shared_file_obj = 0usize;
@@ -115,7 +130,11 @@ fn one_spawn(ctx: &mut Ctx, kinds: [usize; 3], shared: bool, dir: &std::path::Pa
         std::fs::write(&p, vec![b'.'; 4096]).unwrap();
         std::fs::OpenOptions::new().read(true).write(true).open(&p).unwrap()
     };
-    for s in 0..3 {
+    let order: Vec<usize> = match closed {
+        Some(c) => std::iter::once(c).chain((0..3).filter(|&x| x != c)).collect(),
+        None => vec![0, 1, 2],
+    };
+    for s in order {
         let r = match kinds[s] {
             0 => Redirection::None,
             1 => Redirection::Pipe,
@@ -160,7 +179,7 @@ fn one_spawn(ctx: &mut Ctx, kinds: [usize; 3], shared: bool, dir: &std::path::Pa
             }
             _ => unreachable!(),
         };
-        redirs.push(r);
+        redirs[s] = Some(r);
     }
     drop(shared_file);
     drop(shared_rc);
@@ -169,13 +188,15 @@ fn one_spawn(ctx: &mut Ctx, kinds: [usize; 3], shared: bool, dir: &std::path::Pa
         o.keeper.seek(SeekFrom::Start(o.init)).unwrap();
     }
     for fd in 0..3 {
-        set_own_offset(fd, 1000 * (fd as i64 + 1));
+        if Some(fd as usize) != closed {
+            set_own_offset(fd, 1000 * (fd as i64 + 1));
+        }
     }
     let expect = resolve(kinds, stream_obj);
     let std_before: Vec<_> = (0..3).map(own_fd_state).collect();
-    let serr = redirs.pop().unwrap();
-    let sout = redirs.pop().unwrap();
-    let sin = redirs.pop().unwrap();
+    let serr = redirs[2].take().unwrap();
+    let sout = redirs[1].take().unwrap();
+    let sin = redirs[0].take().unwrap();
     let argv = vec![exe.clone().into_os_string(), OsString::from("x")];
     let config = PopenConfig { stdin: sin, stdout: sout, stderr: serr, ..Default::default() };
     let m = run::monitored(|| Popen::create(&argv, config));
@@ -294,6 +315,9 @@ fn one_spawn(ctx: &mut Ctx, kinds: [usize; 3], shared: bool, dir: &std::path::Pa
                         }
                     }
                     for n in 0..3 {
+                        if Some(n) == closed {
+                            continue;
+                        }
                         let now = own_fd_state(n as i32).3;
                         ctx.count("offset_probes", 1);
                         if now != 1000 * (n as i64 + 1) + moved_inh[n] {
@@ -311,6 +335,15 @@ fn one_spawn(ctx: &mut Ctx, kinds: [usize; 3], shared: bool, dir: &std::path::Pa
             drop(p);
         }
         (None, _) => {}
+    }
+    if let Some(s) = closed {
+        // put the parent's own descriptor back
+        unsafe {
+            libc::syscall(libc::SYS_dup3, saved_fd, s as i32, 0);
+            libc::syscall(libc::SYS_close, saved_fd);
+        }
+        drop(objs);
+        return Outcome { viol, valid: expect.is_some() };
     }
     // the parent's own standard streams must be untouched
     ctx.count("parent_stream_audits", 1);
@@ -361,6 +394,26 @@ pub fn run(ctx: &mut Ctx) {
         if i < 3 {
             ctx.sample(J::obj().set("stdin", J::s(KINDS[kinds[0]])).set("stdout", J::s(KINDS[kinds[1]])).set("stderr", J::s(KINDS[kinds[2]])).set("shared_files", J::Bool(shared)));
         }
+        run::end_case();
+    });
+    // the file handed over for a stream already has that stream's descriptor number in the parent
+    let nclosed = ctx.n(240, 1500);
+    ctx.family("parent-fd-closed", nclosed, |ctx, rng, i| {
+        let s = (i % 3) as usize;
+        let mut kinds = [rng.below(4) as usize, rng.below(5) as usize, rng.below(5) as usize];
+        kinds[s] = 2 + ((i / 3) % 2) as usize; // File or RcFile on the closed descriptor
+        if kinds[1] == 4 && kinds[2] == 4 {
+            kinds[if s == 1 { 2 } else { 1 }] = 1;
+        }
+        // None on another stream is fine (inherited); Merge onto the stream that sits on the closed number is interesting too
+        let shared = rng.chance(300);
+        run::begin_case();
+        let dir = ctx.scratch("c05c");
+        let o = one_spawn_x(ctx, kinds, shared, &dir, "c", Some(s));
+        report_all(ctx, o);
+        ctx.count("spawn_attempts", 1);
+        ctx.count("spawns_with_a_stream_file_on_its_own_descriptor_number", 1);
+        ctx.distinct(&format!("closed{}{:?}{}", s, kinds, shared));
         run::end_case();
     });
     // spawns from short-lived threads: the thread exits (TLS destructors run), then the parent's streams are re-checked
